@@ -73,5 +73,44 @@ def install(handler, g):
         ok = has_parameter_data(q) and getattr(q, "mup_type", None) == "weight" and getattr(q, "mup_scaling_depth", None) == 7 and isinstance(q, nn.Parameter) and torch.equal(q.data, p.data)
         return (not ok), f"history {hist}: (step, tagged, has __deepcopy__ hook, has __reduce_ex__ hook) = {trace}"
 
+    def replay_c15(rj):
+        import ast
+
+        import torch.fx as fx
+        import unit_scaling.functional as U
+        from unit_scaling.formats import FPFormat, format_to_tuple, tuple_to_format
+        from unit_scaling.transforms import _simulate_format as sf
+
+        ob, job = rj["obligation"], rj["job"]
+        if "format_to_tuple" in ob:
+            bad = []
+            for f in (FPFormat(4, 3, "nearest"), FPFormat(5, 2, "stochastic", 3), FPFormat(5, 2)):
+                g_ = tuple_to_format(format_to_tuple(f))
+                if g_ != f:
+                    bad.append(f"{f!r} -> {g_!r}")
+            return bool(bad), "; ".join(bad) or "round trip exact"
+        m = re.search(r"callshape\[positional=(\[.*?\]),keyword=(\[.*?\])\]", ob)
+        if m:
+            pos, kw = ast.literal_eval(m.group(1)), ast.literal_eval(m.group(2))
+            key = re.search(r"_replace_with_quantised\[(.*?)\]", ob).group(1)
+            target = {"F.linear": F.linear, "U.linear": U.linear, "F.scaled_dot_product_attention": F.scaled_dot_product_attention, "U.scaled_dot_product_attention": U.scaled_dot_product_attention}[key]
+            torch.manual_seed(0)
+            d = 4
+            vals = {"input": torch.randn(2, d), "weight": torch.randn(d, d), "bias": torch.randn(d), "constraint": None, "scale_power": (0.5, 0.5, 0.5), "query": torch.randn(1, 2, 3, d), "key": torch.randn(1, 2, 3, d), "value": torch.randn(1, 2, 3, d), "attn_mask": None, "dropout_p": 0.0, "is_causal": False, "scale": None, "mult": 1.0}
+            g = fx.Graph()
+            ph = {n: g.placeholder(n) for n in pos + kw}
+            node = g.call_function(target, tuple(ph[n] for n in pos), {n: ph[n] for n in kw})
+            g.output(node)
+            want = target(*[vals[n] for n in pos], **{n: vals[n] for n in kw})
+            try:
+                sf._replace_with_quantised(g, node, FPFormat(8, 23, "nearest"), FPFormat(8, 23, "nearest"))
+                gm = fx.GraphModule(torch.nn.Module(), g)
+                got = gm(*[vals[n] for n in pos + kw])
+            except Exception as e:
+                return True, f"{key}({', '.join(pos)}{', ' if kw else ''}{', '.join(k + '=' for k in kw)}) after the rewrite: {type(e).__name__}: {e}"
+            return (not torch.equal(got, want)), "rewritten call differs from the original with a lossless format" if not torch.equal(got, want) else "rewritten call runs and agrees"
+        return False, "no concrete replay rule; see the verifier output in the replay file"
+
+    handler(lambda rj: rj["job"].startswith("c15:"))(replay_c15)
     handler(lambda rj: rj["job"].startswith("mod:"))(replay_module)
     handler(lambda rj: rj["job"].startswith("c09:"))(replay_parameter)
